@@ -49,10 +49,11 @@ func (c14) Info() core.Info {
 // Many short-lived worker processes: lazily initialised package-level state can only race on
 // its FIRST use in a process, so every process starts with "cold" rounds (see Exec).
 func (c14) Plan(tier string) core.Plan {
+	// CaseCPU: a soak round is ONE case that keeps sixteen goroutines busy under the race detector
 	if tier == "thorough" {
-		return core.Plan{Shards: 256, CPUSeconds: 3000}
+		return core.Plan{Shards: 256, CPUSeconds: 6000, CaseCPU: 1500}
 	}
-	return core.Plan{Shards: 64, CPUSeconds: 3000}
+	return core.Plan{Shards: 64, CPUSeconds: 3000, CaseCPU: 1500}
 }
 
 // c14Baseline: fingerprints of every package-level table and predefined profile, taken when
@@ -106,18 +107,18 @@ func (c14) soakRound(ctx *core.Ctx, cs *core.Case) {
 	c14TakeBaseline()
 	old := runtime.GOMAXPROCS(16)
 	defer runtime.GOMAXPROCS(old)
-	N := 12_000
+	N := 24_000 // 15 000 of them internationalized names: beyond memo limits of 4 096, 8 192, 10 000 entries
 	if ctx.Tier == "thorough" {
-		N = 70_000
+		N = 120_000
 	}
 	const K = 16
 	name := func(i int) string {
-		switch i % 4 {
-		case 0:
+		switch i % 8 {
+		case 0, 1, 2:
 			return fmt.Sprintf("http://h\u00e9%d.example/p%d?q=%d", i, i%97, i)
-		case 1:
+		case 3, 4:
 			return fmt.Sprintf("https://www%d.b\u00fccher.example:8443/%d/x", i, i)
-		case 2:
+		case 5:
 			return fmt.Sprintf("http://[2001:db8::%x:%x]/a?b=%d", i>>16, i&0xffff, i)
 		default:
 			return fmt.Sprintf("http://Host%d.Example.COM/a/../b%d", i, i)
